@@ -106,8 +106,8 @@ func main() {
 	samples.N = 5
 	pols := policies()
 
-	runs := r.Pick(48, 3000)
-	steps := r.Pick(1200, 1500)
+	runs := r.Pick(24, 3000)
+	steps := r.Pick(800, 1500)
 	evals, totSteps, totAborts := 0, 0, 0
 	labels := map[string]int{}
 	maxTerm, elections, truncations, crashes, applied, leaderChanges := 0, 0, 0, 0, 0, 0
